@@ -5,6 +5,7 @@ CONSTANTS
   MaxParents = 3
   MaxPerTx = 2
   AllowHide = TRUE
+  Shape = "any"
   Bug = "none"
-INVARIANTS InvWellFormed InvGeometric InvSquashKeeps InvMergeComplete InvLevelsRule
+INVARIANTS InvWellFormed InvMergeComplete EmitInv
 CHECK_DEADLOCK FALSE
